@@ -8,7 +8,10 @@
 
    Result: each generated branch computes exactly Model.calc_flat (value, which exception) and is free of undefined
    behaviour - under the side conditions of FlatIndexGen.v for the four branches that compute in int, and for every product of
-   extents below 2^64 for the read branch, which computes in size_t.  The induction over the loop is FlatIndexGen.loop_generic. *)
+   extents below 2^64 for the read branch, which computes in size_t.  The induction over the loop is FlatIndexGen.loop_generic.
+   Further down: StructOperations::get_struct_member_multidim_array_element (fn_member_read_flat) and the read path of float /
+   double / quad arrays in the typed evaluator (fn_float_read_flat, with its own induction fr_loop_spec: its loop has no
+   product after the last dimension and no test of the number of subscripts). *)
 From Coq Require Import ZArith Bool String List Lia ZifyBool.
 From Cb Require Import Cxx.Cxx Cxx.CxxLemmas C05.Gen_FlatIndex C05.FlatIndexGen.
 From Cb Require C05.Model C05.FlatIndex C05.Lemmas.
@@ -430,14 +433,237 @@ Proof.
 Qed.
 
 (* ================================================================== the read path of float / double / quad arrays
-   (ExpressionEvaluator::evaluate_typed_expression_internal, evaluator/core/evaluator.cpp): the same accumulation WITHOUT a
-   per-dimension test - an index outside its dimension is folded into the flat index and addresses another cell (known
-   finding C05-float-array-read-no-per-dimension-check: double[2][3] m; m[0][3] reads m[1][0]) *)
+   (ExpressionEvaluator::evaluate_typed_expression_internal, evaluator/core/evaluator.cpp; since fix 3f94fc1 every index is
+   tested against its own dimension inside the loop).  It compares the int64_t subscripts directly, accumulates in int / long,
+   multiplies `multiplier` only while d > 0 (no unused last product) and has NO test of the number of subscripts before the
+   loop: a subscript beyond the last dimension is rejected by `d >= array_dimensions.size()`, but FEWER subscripts than
+   dimensions are accepted and address the row-major cell of the leading dimensions. *)
+Definition vargsF (dims idxs : list Z) : vecs :=
+  [("indices", (TLong, idxs)); ("var->array_dimensions", (TInt, dims))].
 Definition call_float_read (fuel : nat) (dims idxs : list Z) : result :=
-  run_vec fuel fn_float_read_flat "" [("indices", (TLong, idxs)); ("var->array_dimensions", (TInt, dims))] [].
-Lemma float_read_unchecked_refuted_l :
-  exists dims idxs, ~ F.in_range dims idxs /\
-    call_float_read 3 dims idxs = RVal (TInt, F.row_major dims [1; 0]) /\ call_float_read 3 dims [1; 0] = RVal (TInt, 3).
+  run_vec fuel fn_float_read_flat "" (vargsF dims idxs) [].
+Definition fr_msg : string := "Array index out of bounds".
+(* what the branch computes for ANY number of subscripts: the model on the leading dimensions *)
+Definition expected_float_read (dims idxs : list Z) : result :=
+  match M.calc_flat (firstn (List.length idxs) dims) idxs with
+  | Some k => RVal (TInt, k)
+  | None => RThrow fr_msg
+  end.
+(* any int64_t subscripts; their number is converted to int *)
+Definition indices64_int_ok (idxs : list Z) : Prop := Forall is_int64 idxs /\ Z.of_nat (List.length idxs) <= int_max.
+
+Lemma bind_vargsF dims idxs : Forall is_int dims -> Z.of_nat (List.length dims) <= int_max -> indices64_int_ok idxs ->
+  bind_vecs (v_vecs fn_float_read_flat) (vargsF dims idxs) = Some (vargsF dims idxs).
 Proof.
-  exists [2; 3], [0; 3]. split; [cbn; lia|]. split; vm_compute; reflexivity.
+  intros Hdi Hr [Hi Hl]. unfold int_max in Hr, Hl.
+  cbn -[vec_ok]. rewrite (vec_ok_int dims Hdi) by lia.
+  unfold vec_ok. rewrite (forallb_long idxs Hi). unfold vec_len. cbn [tmax andb].
+  replace (Z.of_nat (List.length idxs) <=? 9223372036854775807) with true by lia. reflexivity.
 Qed.
+
+Definition fr_cond : expr :=
+  Eval cbv in match first_while (f_body (v_fn fn_float_read_flat)) with Some (c, _) => c | None => ELit TBool 0 end.
+Definition fr_body : stmt :=
+  Eval cbv in match first_while (f_body (v_fn fn_float_read_flat)) with Some (_, b) => b | None => SSkip end.
+Definition st_f (i m f : Z) : env := [("d", (TInt, i)); ("multiplier", (TInt, m)); ("flat_index", (TInt, f))].
+
+Section FloatReadLoop.
+Variables (dims idxs : list Z) (fuel : nat).
+Let ve := vargsF dims idxs.
+Let sp : string * string := ("", "").
+
+Lemma fr_cond_spec i m f : -1 <= i <= 2147483647 ->
+  eval ve sp (st_f i m f) fr_cond = EV (TBool, if 0 <=? i then 1 else 0).
+Proof.
+  intros Hi. rewrite eval_as_tree. unfold fr_cond, ve, vargsF, st_f. cxx_norm.
+  conv_atom i. fold_consts. reflexivity.
+Qed.
+
+Hypothesis Hidx : Forall is_int64 idxs.
+Hypothesis Hdi : Forall is_int dims.
+Hypothesis Hrank : Z.of_nat (List.length dims) <= int_max.
+Hypothesis Hilen : Z.of_nat (List.length idxs) <= int_max.
+
+Lemma fr_body_spec n m f : (n < List.length idxs)%nat -> 0 <= f <= int_max -> 0 <= m <= int_max ->
+  ((n < List.length dims)%nat -> 0 <= nth n idxs 0 < nth n dims 0 ->
+   0 <= nth n idxs 0 * m <= int_max /\ 0 <= f + nth n idxs 0 * m <= int_max /\ 0 <= m * nth n dims 0 <= int_max) ->
+  exec ve fuel sp TInt (st_f (Z.of_nat n) m f) fr_body =
+  if (Z.of_nat (List.length dims) <=? Z.of_nat n) || ((nth n idxs 0 <? 0) || (nth n dims 0 <=? nth n idxs 0))
+  then ODone (RThrow fr_msg)
+  else ONext (st_f (Z.of_nat n - 1) (if 0 <? Z.of_nat n then m * nth n dims 0 else m) (f + nth n idxs 0 * m)).
+Proof.
+  intros Hn Hf Hm Hb.
+  assert (Ix : is_int64 (nth n idxs 0)) by (apply Forall_nth_Z; [assumption|lia]).
+  remember (nth n idxs 0) as x eqn:Ex. remember (Z.of_nat n) as i eqn:Ei.
+  assert (Hx : vec_nth idxs i = x) by (subst i x; apply vec_nth_nat).
+  assert (Hi2 : 0 <= i < Z.of_nat (List.length idxs)) by lia.
+  assert (Hi3 : i <= 2147483647) by (unfold int_max in Hilen; lia).
+  set (L := Z.of_nat (List.length dims)) in *.
+  assert (HL : 0 <= L <= 2147483647) by (unfold int_max in Hrank; lia).
+  destruct (L <=? i) eqn:EL; cbn [orb].
+  - rewrite exec_as_tree. unfold fr_body, ve, vargsF, st_f. cxx_norm. unfold vec_len. fold L.
+    conv_atom L. conv_atom i. conv_atom L. decide_tests. reflexivity.
+  - assert (Hnd : (n < List.length dims)%nat) by lia. specialize (Hb Hnd).
+    assert (Id : is_int (nth n dims 0)) by (apply Forall_nth_Z; assumption).
+    remember (nth n dims 0) as d eqn:Ed.
+    assert (Hd : vec_nth dims i = d) by (subst i d; apply vec_nth_nat).
+    rewrite exec_as_tree. unfold fr_body, fr_msg, ve, vargsF, st_f. cxx_norm. unfold vec_len. fold L.
+    unfold int_max, is_int, is_int64 in *.
+    conv_atom L. conv_atom i. conv_atom L. rewrite Hx, Hd.
+    conv_atoms i x d m f.
+    replace (L <=? i) with false by lia. cbv beta iota.
+    destruct (x <? 0) eqn:E1; cbv beta iota; cbn [orb]; [decide_tests; reflexivity|].
+    destruct (d <=? x) eqn:E2; cbv beta iota; [decide_tests; reflexivity|].
+    destruct Hb as (B1 & B2 & B3); [lia|].
+    conv_atoms i x d m f. conv_compounds i x d m f.
+    destruct (0 <? i) eqn:E3; cbv beta iota.
+    + decide_tests. conv_compounds i x d m f. reflexivity.
+    + decide_tests. conv_compounds i x d m f. reflexivity.
+Qed.
+
+Hypothesis Hpos : Forall (fun d => 1 <= d) dims.
+
+Lemma fr_loop_spec : forall n k f m, (n <= List.length idxs)%nat -> (n <= List.length dims)%nat ->
+  0 <= f < m -> m * M.size (firstn n dims) <= int_max ->
+  exists m', while_loop ve fuel sp TInt fr_cond fr_body (S n + k) (st_f (Z.of_nat n - 1) m f) =
+  match M.flat_rev (rev (firstn n dims)) (rev (firstn n idxs)) f m with
+  | Some r => ONext (st_f (-1) m' r)
+  | None => ODone (RThrow fr_msg)
+  end.
+Proof.
+  induction n as [|n IH]; intros k f m Hni Hnd Hf Hm.
+  - exists m. cbn [firstn rev M.flat_rev Nat.add]. rewrite while_loop_S, fr_cond_spec by lia.
+    cbn [lift nonzero Z.of_nat Z.sub Z.opp Z.add Z.leb Z.compare]. reflexivity.
+  - pose proof (size_firstn_pos dims n Hpos) as P.
+    assert (Hnd' : (n < List.length dims)%nat) by lia. assert (Hni' : (n < List.length idxs)%nat) by lia.
+    rewrite (firstn_snoc 0 dims n Hnd'), (firstn_snoc 0 idxs n Hni'), !rev_unit in *.
+    pose proof (fr_body_spec n m f Hni') as Hbody.
+    set (d := nth n dims 0) in *. set (x := nth n idxs 0) in *.
+    assert (Hd1 : 1 <= d) by (apply (Forall_nth_Z (fun d => 1 <= d)); assumption).
+    rewrite F.size_app in Hm. cbn [M.size] in Hm.
+    replace (Z.of_nat (S n) - 1) with (Z.of_nat n) by lia.
+    change (S (S n) + k)%nat with (S (S n + k)). rewrite while_loop_S, fr_cond_spec by (unfold int_max in *; lia).
+    replace (0 <=? Z.of_nat n) with true by lia. cbn [lift nonzero].
+    assert (Hmd : m * d <= int_max).
+    { assert (m * d * 1 <= m * d * M.size (firstn n dims)) by (apply Z.mul_le_mono_nonneg_l; nia). lia. }
+    assert (Hdm : d <= m * d) by nia. assert (Hmm : m <= m * d) by nia.
+    assert (Hstep : 0 <= x < d -> 0 <= x * m /\ x * m <= m * d - m) by (intros; split; nia).
+    rewrite Hbody by (try lia; intros _ Hx; specialize (Hstep Hx); lia).
+    replace (Z.of_nat (List.length dims) <=? Z.of_nat n) with false by lia. cbn [orb M.flat_rev].
+    destruct ((x <? 0) || (d <=? x)) eqn:E; [exists m; reflexivity|].
+    apply orb_false_iff in E as [E1 E2].
+    specialize (Hstep ltac:(lia)).
+    destruct (0 <? Z.of_nat n) eqn:E3.
+    + destruct (IH k (f + x * m) (m * d)) as [m' IHm]; try lia; try nia.
+      exists m'. change (leave (st_f (Z.of_nat n) m f) (st_f (Z.of_nat n - 1) (m * d) (f + x * m))) with (st_f (Z.of_nat n - 1) (m * d) (f + x * m)).
+      exact IHm.
+    + assert (n = 0)%nat by lia. subst n. exists m.
+      change (leave (st_f (Z.of_nat 0) m f) (st_f (Z.of_nat 0 - 1) m (f + x * m))) with (st_f (Z.of_nat 0 - 1) m (f + x * m)).
+      cbn [firstn rev M.flat_rev Nat.add]. rewrite while_loop_S, fr_cond_spec by (cbn; lia).
+      reflexivity.
+Qed.
+End FloatReadLoop.
+
+Lemma size_firstn_le dims n : Forall (fun d => 1 <= d) dims -> M.size (firstn n dims) <= M.size dims.
+Proof.
+  intros H. rewrite <- (firstn_skipn n dims) at 2. rewrite F.size_app.
+  pose proof (size_firstn_pos dims n H) as P1.
+  assert (P2 : 1 <= M.size (skipn n dims)).
+  { assert (Hs : Forall (fun d => 1 <= d) (skipn n dims)).
+    { rewrite Forall_forall in *. intros d Hin. apply H. rewrite <- (firstn_skipn n dims). apply in_or_app. right. exact Hin. }
+    pose proof (size_firstn_pos (skipn n dims) (List.length (skipn n dims)) Hs) as P. rewrite firstn_all in P. exact P. }
+  nia.
+Qed.
+
+(* the whole branch, for ANY number of int64_t subscripts *)
+Lemma float_read_is_model_l dims idxs fuel : extents_ok dims -> indices64_int_ok idxs -> (List.length idxs < fuel)%nat ->
+  call_float_read fuel dims idxs = expected_float_read dims idxs.
+Proof.
+  intros Hd Hi Hfuel.
+  pose proof Hd as (Hpos & Hsize & Hrank). pose proof Hi as (Hint & Hilen).
+  pose proof (extents_are_ints dims Hd) as Hdi.
+  unfold call_float_read.
+  rewrite run_vec_as_tree by (apply bind_vargsF; assumption).
+  cxx_vtree. unfold expected_float_read, M.calc_flat, vec_len.
+  match goal with |- context [("d", (TInt, ?e))] =>
+    assert (Hd0 : e = Z.of_nat (List.length idxs) - 1);
+    [ destruct (List.length idxs) as [|n'] eqn:En; [reflexivity|];
+      unfold int_max in Hilen; rewrite (Z.mod_small (Z.of_nat (S n'))) by lia; fold_consts;
+      rewrite (Z.mod_small (Z.of_nat (S n') - 1)) by lia; rewrite !sconv32_id by (unfold is_int; lia); reflexivity
+    | rewrite Hd0; clear Hd0 ]
+  end.
+  fold_consts. unfold whileK. rewrite exec_while.
+  change (SSeq (SBlock _) _) with fr_body. change (EBin BGe _ _) with fr_cond.
+  change [("d", (TInt, Z.of_nat (List.length idxs) - 1)); ("multiplier", (TInt, 1)); ("flat_index", (TInt, 0))]
+    with (st_f (Z.of_nat (List.length idxs) - 1) 1 0).
+  change [("indices", (TLong, idxs)); ("var->array_dimensions", (TInt, dims))] with (vargsF dims idxs).
+  assert (Hfu : fuel = (S (List.length idxs) + (fuel - S (List.length idxs)))%nat) by lia.
+  set (W := while_loop (vargsF dims idxs) fuel ("", "") TInt fr_cond fr_body). rewrite Hfu. subst W.
+  destruct (Nat.leb (List.length idxs) (List.length dims)) eqn:E.
+  - apply Nat.leb_le in E.
+    destruct (fr_loop_spec dims idxs fuel Hint Hdi Hrank Hilen Hpos (List.length idxs) (fuel - S (List.length idxs)) 0 1) as [m' Hl];
+      [lia|exact E|lia| |].
+    { pose proof (size_firstn_le dims (List.length idxs) Hpos). lia. }
+    rewrite Hl, firstn_all. rewrite firstn_length_le by exact E. rewrite Nat.eqb_refl.
+    destruct (M.flat_rev (rev (firstn (List.length idxs) dims)) (rev idxs) 0 1) as [r|] eqn:R; [|reflexivity].
+    assert (Hr' : 0 <= r < M.size (firstn (List.length idxs) dims)).
+    { apply (L.flat_index_inside_buffer_l _ idxs). unfold M.calc_flat. rewrite firstn_length_le by exact E. rewrite Nat.eqb_refl. exact R. }
+    pose proof (size_firstn_le dims (List.length idxs) Hpos). unfold int_max in *.
+    unfold st_f. cbv -[Z.add Z.sub Z.mul Z.modulo M.size]. rewrite sconv32_id by (unfold is_int; lia). reflexivity.
+  - apply Nat.leb_gt in E.
+    destruct (List.length idxs) as [|n] eqn:En; [lia|].
+    rewrite firstn_all2 by lia.
+    replace (Nat.eqb (List.length dims) (S n)) with false by (symmetry; apply Nat.eqb_neq; lia).
+    cbn [Nat.add]. rewrite while_loop_S.
+    replace (Z.of_nat (S n) - 1) with (Z.of_nat n) by lia.
+    rewrite fr_cond_spec by (unfold int_max in *; lia).
+    replace (0 <=? Z.of_nat n) with true by lia. cbn [lift nonzero].
+    rewrite (fr_body_spec dims idxs fuel Hint Hdi Hrank) by (rewrite ?En; unfold int_max in *; lia).
+    replace (Z.of_nat (List.length dims) <=? Z.of_nat n) with true by lia. reflexivity.
+Qed.
+
+(* at least as many subscripts as dimensions (what the type checker guarantees for an element read): the model itself *)
+Definition expected_float_read_full (dims idxs : list Z) : result :=
+  match M.calc_flat dims idxs with Some k => RVal (TInt, k) | None => RThrow fr_msg end.
+Lemma float_read_full_rank_is_model_l dims idxs fuel : extents_ok dims -> indices64_int_ok idxs -> (List.length idxs < fuel)%nat ->
+  (List.length dims <= List.length idxs)%nat ->
+  call_float_read fuel dims idxs = expected_float_read_full dims idxs.
+Proof.
+  intros Hd Hi Hf Hl. rewrite float_read_is_model_l by assumption. unfold expected_float_read, expected_float_read_full.
+  rewrite firstn_all2 by exact Hl. reflexivity.
+Qed.
+
+Lemma float_read_ub_free_l dims idxs fuel : extents_ok dims -> indices64_int_ok idxs -> (List.length idxs < fuel)%nat ->
+  well_defined (call_float_read fuel dims idxs).
+Proof.
+  intros Hd Hi Hf. rewrite float_read_is_model_l by assumption. unfold expected_float_read.
+  destruct (M.calc_flat _ idxs) as [k|] eqn:E; cbn [well_defined]; [|exact I].
+  apply L.flat_index_inside_buffer_l in E. destruct Hd as (Hp & Hs & _).
+  pose proof (size_firstn_le dims (List.length idxs) Hp). unfold is_int, int_max in *. lia.
+Qed.
+
+(* accepted iff every index is inside its dimension - given as many subscripts as dimensions *)
+Lemma float_read_accepts_iff_l dims idxs fuel k : extents_ok dims -> indices64_int_ok idxs -> (List.length idxs < fuel)%nat ->
+  (List.length dims <= List.length idxs)%nat ->
+  (call_float_read fuel dims idxs = RVal (TInt, k) <-> F.in_range dims idxs /\ k = F.row_major dims idxs).
+Proof.
+  intros Hd Hi Hf Hl. rewrite float_read_full_rank_is_model_l by assumption. unfold expected_float_read_full.
+  rewrite <- F.calc_flat_some_iff_l. destruct (M.calc_flat dims idxs) as [r|].
+  - split; intros H; [injection H as ->; reflexivity|injection H as ->; reflexivity].
+  - split; discriminate.
+Qed.
+
+(* the witness of the repaired finding C05-float-array-read-no-per-dimension-check (fix 3f94fc1): double[2][3] m; m[0][3] is
+   rejected now, m[1][0] is cell 3, m[1][-1] is rejected *)
+Lemma float_read_former_witness_rejected_l :
+  call_float_read 3 [2; 3] [0; 3] = RThrow fr_msg /\ call_float_read 3 [2; 3] [1; 0] = RVal (TInt, 3) /\
+  call_float_read 3 [2; 3] [1; -1] = RThrow fr_msg.
+Proof. repeat split; vm_compute; reflexivity. Qed.
+
+(* what is still missing: the number of subscripts is not compared with the number of dimensions.  Two subscripts on extents
+   (2, 3, 2) - no element of the array - are accepted and yield cell 3 = the cell of (0, 1, 1) (known finding
+   C05-float-array-read-fewer-subscripts-accepted: double[2][3][2] m; m[0][1][1] = 7.5; println(m[1][0]) prints 7.5) *)
+Lemma float_read_fewer_subscripts_refuted_l :
+  exists dims idxs, (List.length idxs < List.length dims)%nat /\ M.calc_flat dims idxs = None /\
+    call_float_read 3 dims idxs = RVal (TInt, F.row_major dims [0; 1; 1]).
+Proof. exists [2; 3; 2], [1; 0]. split; [cbn; lia|]. split; vm_compute; reflexivity. Qed.
